@@ -60,7 +60,7 @@ def gen_history(rng, long=False):
         if rng.random() < 0.1:
             t_id = rng.choice(["x", "t-7", "3"])
         turns.append({"turn_id": t_id, "agent": rng.choice(["A", "B"]), "text": f"hello world {i}", "deltas": deltas, "fault": fault, "exc": exc,
-                      "fail_idx": fail_idx, "t4_enabled": rng.random() < 0.8, "store_kind": rng.choice(["world"] * 8 + ["no-apply", "absent"])})
+                      "fail_idx": fail_idx, "t4_enabled": rng.random() < 0.8, "cache_enabled": rng.random() < 0.75, "store_kind": rng.choice(["world"] * 8 + ["no-apply", "absent"])})
         tid = tid + 1 if isinstance(tid, int) else 1
     return {"cfg": cfg, "turns": turns, "raw_namespaces": raw_ns}
 
@@ -94,6 +94,9 @@ def check_history(case, sess: Session):
         for ti, t in enumerate(case["turns"]):
             tcase = {"cfg": case["cfg"], "turns": case["turns"][:ti + 1], "raw_namespaces": case.get("raw_namespaces")}
             env.cfg["t4"]["enabled"] = bool(t["t4_enabled"])
+            # t4.cache.enabled only decides whether the orchestrator creates a manager; a manager that is already on the
+            # state is still busted on apply when the flag is switched off in the middle of a history
+            env.cfg["t4"]["cache"]["enabled"] = bool(t.get("cache_enabled", True))
             # store for this turn
             state["active_graphs"] = ["g0"]
             if t["store_kind"] == "world":
